@@ -110,8 +110,8 @@ for beta in (0.3, 2.0):
                 TransportKubo(model, T, insteps=4, ievolve_config=EvolveConfig(EvolveMethod.tdvp_ps),
                               compress_config=CompressConfig(CompressCriteria.fixed, max_bonddim=32)).init_mps()
             else:
-                SpectraFiniteT(model, kind, T, 4, Quantity(0.5), ievolve_config=EvolveConfig(EvolveMethod.tdvp_ps),
-                               icompress_config=CompressConfig(CompressCriteria.fixed, max_bonddim=32))
+                # default imaginary-time scheme (P&C RK4) as in the package's own use; 40 steps keep its error below the tolerance
+                SpectraFiniteT(model, kind, T, 40, Quantity(0.5), icompress_config=CompressConfig(CompressCriteria.fixed, max_bonddim=32))
             if not LOG:
                 bad.append({"entry": kind, "beta": beta, "what": "no thermal propagation logged"})
                 continue
